@@ -407,3 +407,12 @@ Module ExV.
        = Some (mkReq 12 (get_price (parse_pricing (mkRaw 10 [] [])) 0 0) 6 true).
   Proof. split; [exact wf_cfg0|]. split; [exact reach_r|]. vm_compute. reflexivity. Qed.
 End ExV.
+
+(* the form stated in Properties/C07.v: every message that is not a response *)
+Lemma volume_frame_msg_nonresp cfg s o s' :
+  handle cfg s o = Ok s' -> (forall dt, o <> OEndBlock dt) ->
+  (forall r w c ou v k, o <> ORespond r w c ou v k) -> vols s' = vols s.
+Proof.
+  intros H Hne Hnr. apply (volume_frame_msg cfg s o s' H Hne).
+  destruct o; try reflexivity. exfalso. eapply Hnr. reflexivity.
+Qed.
